@@ -81,29 +81,36 @@ class TokenParser(object):
         return token
 
     def _parse_quoted_string(self):  # type: () -> str
-        string = ""
-        delimiter = self._current
+        # Quotes nested in a quoted string are kept on an explicit stack
+        # rather than parsed by recursion, so that the nesting depth
+        # is not limited by the interpreter's recursion limit.
+        delimiters = [self._current]
+        strings = [""]
 
         # Skip first delimiter
         self._next()
-        while self._is_valid():
-            if self._current == delimiter:
+        while True:
+            if not self._is_valid() or self._current == delimiters[-1]:
                 # Skip last delimiter
                 self._next()
 
-                break
+                delimiter = delimiters.pop()
+                string = strings.pop()
+                if not delimiters:
+                    return string
 
-            if self._current == "\\":
-                string += self._parse_escape_sequence()
-            elif self._current == '"':
-                string += '"{}"'.format(self._parse_quoted_string())
-            elif self._current == "'":
-                string += "'{}'".format(self._parse_quoted_string())
-            else:
-                string += self._current
+                strings[-1] += delimiter + string + delimiter
+            elif self._current == "\\":
+                strings[-1] += self._parse_escape_sequence()
+            elif self._current in ['"', "'"]:
+                delimiters.append(self._current)
+                strings.append("")
+
+                # Skip first delimiter
                 self._next()
-
-        return string
+            else:
+                strings[-1] += self._current
+                self._next()
 
     def _parse_escape_sequence(self):  # type: () -> str
         if self._next_ in ['"', "'"]:
